@@ -425,6 +425,24 @@ func c17Program(src string, unsupported bool, stream string, model *Model, r *Re
 			Detail: "the bytecode emitted by the real compiler is rejected by the proved-sound validator wf_check: " + ans,
 			Input:  in, Impl: map[string]any{"code_len": len(c.Code), "consts": c.NConsts, "globals": c.GCount, "locals": c.LCount, "disasm_head": headLines(c.bc.Instructions.String(), 60)}})
 	}
+	// definite initialisation of local slots (coq/LocalInit.v): WF bounds the operand of a local access, not the order
+	if wf && !big && (c.LCount > 200 || len(c.Code) > 20000) {
+		r.Dist(stream + ":linit-skipped-large") // sets as lists: quadratic in LocalCount
+	} else if wf && !big {
+		if lm := c17Linit(); lm != nil {
+			a2, err := lm.Ask(fmt.Sprintf("(linit %s %d %d %d)", bytesSX(c.Code), c.NConsts, c.GCount, c.LCount))
+			switch {
+			case err != nil:
+				r.Violate(Violation{Kind: "correspondence", Key: "model-crash", Detail: "linit: " + err.Error(), Input: in})
+			case strings.HasPrefix(a2, "(true"):
+				r.Dist(stream + ":linit-ok")
+			default:
+				r.Violate(Violation{Kind: "property", Key: "local-read-before-write",
+					Detail: "the bytecode emitted by the real compiler has a path on which an OpGetLocal reads a slot no OpSetLocal has written (rejected by the validator linit_check, proved sound: linit_safe): " + a2,
+					Input:  in, Impl: map[string]any{"code_len": len(c.Code), "locals": c.LCount, "disasm_head": headLines(c.bc.Instructions.String(), 80)}})
+			}
+		}
+	}
 	// run the real VM
 	var res vmRunResult
 	if wf {
@@ -545,8 +563,22 @@ func c17Large(kind string, rng *rand.Rand) string {
 	return b.String()
 }
 
+// the model of coq/LocalInit.v, started on first use (one per process)
+var c17LinitModel *Model
+var c17LinitTried bool
+
+func c17Linit() *Model {
+	if !c17LinitTried {
+		c17LinitTried = true
+		if m, err := StartModelBig("linit"); err == nil {
+			c17LinitModel = m
+		}
+	}
+	return c17LinitModel
+}
+
 func runC17(cfg Config, r *Result) {
-	r.Rule = "two kinds of cases. (1) symbol-table histories: up to 30 random Push/Pop/Define/Resolve operations over 5 names (Pop also on the global table) run on pkg/bytecode.SymbolTable and on the extracted SymTab model: every returned symbol and the final chain of tables (index, nestedMaxIndex, symbols) must agree, and on the implementation no two live symbols may share (scope,index) and every local index must be < the root's nestedMaxIndex after all pops; non-trivial = at least one Push, two Defines, four operations. (2) programs: generated evy programs (declarations, assignment, arithmetic, strings, arrays, maps, index, slice, if/else-if/else, while, break, for over ranges/arrays/strings/maps, nested; a stream with constructs outside the compiler's subset; large programs beyond every operand width) compiled by the REAL compiler; the emitted bytecode is validated by the extracted wf_check (proved sound: wf_check_sound) and run on the REAL VM under recover and a time limit; sp after Run must equal LocalCount; non-trivial = the emitted code contains a jump or range instruction; distinct = distinct history / program text"
+	r.Rule = "two kinds of cases. (1) symbol-table histories: up to 30 random Push/Pop/Define/Resolve operations over 5 names (Pop also on the global table) run on pkg/bytecode.SymbolTable and on the extracted SymTab model: every returned symbol and the final chain of tables (index, nestedMaxIndex, symbols) must agree, and on the implementation no two live symbols may share (scope,index) and every local index must be < the root's nestedMaxIndex after all pops; non-trivial = at least one Push, two Defines, four operations. (2) programs: generated evy programs (declarations, assignment, arithmetic, strings, arrays, maps, index, slice, if/else-if/else, while, break, for over ranges/arrays/strings/maps, nested; a stream with constructs outside the compiler's subset; large programs beyond every operand width) compiled by the REAL compiler; the emitted bytecode is validated by the extracted wf_check (proved sound: wf_check_sound) and by the extracted linit_check (definite initialisation of local slots: no path reads a local slot before an OpSetLocal wrote it; coq/LocalInit.v) and run on the REAL VM under recover and a time limit; sp after Run must equal LocalCount; non-trivial = the emitted code contains a jump or range instruction; distinct = distinct history / program text"
 	if cfg.Replay != "" {
 		c17Replay(cfg, r)
 		return
@@ -725,6 +757,12 @@ var c17SymCorpus = [][]symOp{
 }
 
 var c17Corpus = []string{
+	// shadowing declarations whose initialiser reads the shadowed variable: the initialiser belongs to the scope
+	// before the declaration (with an earlier sibling block that used the slot; without; string slice; array in a loop)
+	"x := 10\nr := 0\nif true\n    t := 5\n    r = t\nend\nif true\n    x := x + 1\n    r = x\nend\n",
+	"x := 10\nr := 0\nif true\n    x := x + 1\n    r = x\nend\nr = r + x\n",
+	"s := \"abc\"\nr := \"\"\nif true\n    s := s[1:]\n    r = s\nend\nr = r + s\n",
+	"a := [1 2 3]\nn := 0\nfor range 1\n    if true\n        u := 1\n        n = n + u\n        if true\n            a := a + [4]\n            n = n + a[3]\n        end\n    end\nend\nn = n + a[0]\n",
 	"x := 1\nif x > 0\n    y := 2\n    x = x + y\n    if true\n        z := 3\n        x = z\n    end\nend\nwhile true\n    w := 5\n    x = x + w\n    if x > 10\n        break\n    end\nend\nfor i := range 3\n    x = x + i\nend\n",
 	"x := 0\nfor i := range 2\n    for j := range 3\n        if j == 1\n            break\n        end\n        x = x + i + j\n    end\n    for k := range \"ab\"\n        if k == \"b\"\n            break\n        end\n    end\nend\n",
 	"m := {a:1 b:2}\ns := \"\"\nfor k := range m\n    s = s + k\n    for range 2\n        s = s + \"-\"\n    end\nend\na := [1 2 3]\na[0] = a[1] + m[\"a\"]\nt := s[1:]\nt = t + s[:1] + s[0]\n",
